@@ -70,6 +70,9 @@ def seq_request(t):
                 continue
             ne = pending
             pending = None
+            if not e.get("main", True):
+                fits = []           # a throw-away copy was refitted (what-if estimate at a search point, history re-evaluation): the run's surrogate is untouched
+                continue
             if not (all(_fin(d) for d in ne["dist"]) and all(_fin(v) for v in ne["logY"])):
                 return None
             base = {"ev": "select", "log": _obs_list(ne["logX"], ne["logY"], ne["logS"], ne["n_log"]), "dist": [enc(d) for d in ne["dist"]],
@@ -229,6 +232,8 @@ def joint_request(t):
                 continue
             ne = pend_neigh
             pend_neigh = None
+            if not e.get("main", True):
+                continue
             if not all(_fin(d) for d in ne["dist"]):
                 return None
             evs.append({"ev": "select", "dist": [enc(d) for d in ne["dist"]], "radius2": enc(ne["radius2"] if not isinstance(ne["radius2"], list) else ne["radius2"][0]),
